@@ -23,3 +23,24 @@ package writer
 //@   ensures [L5-unknown] !cok && !dok ==> result == InfoStateUnknown
 //@   modifies nothing
 //@   panics never
+
+// ---- C09: the name mapping -----------------------------------------------------------------------
+// A mapping table entry is "srcDB.srcColl" -> "tgtDB.tgtColl" ('*' for whole-database entries).
+// fullDB / fullColl / oneDot: see core/util contracts
+// applies: the entry with source key k is relevant for (database d, collection cl)
+//@ spec applies(k, d, cl string) bool = fullDB(k) == d && (fullColl(k) == cl || fullColl(k) == "*" || cl == "")
+//@ spec outColl(k, v, d, cl string) string = ite(fullDB(k) == d && fullColl(k) == cl, fullColl(v), cl)
+//@ spec wfNames(c *ChannelWriter) bool = forall k string :: umHas(c.nameMappings, k) ==> oneDot(k) && oneDot(umGet(c.nameMappings, k))
+// agreeNames: all entries that apply to (d, cl) give the same result (the four mapping shapes of the
+// property - none, exact, whole-database, unrelated - satisfy it; request validation does not enforce it)
+//@ spec agreeNames(c *ChannelWriter, d, cl string) bool = forall k1 string, k2 string :: umHas(c.nameMappings, k1) && umHas(c.nameMappings, k2) && applies(k1, d, cl) && applies(k2, d, cl) ==> fullDB(umGet(c.nameMappings, k1)) == fullDB(umGet(c.nameMappings, k2)) && outColl(k1, umGet(c.nameMappings, k1), d, cl) == outColl(k2, umGet(c.nameMappings, k2), d, cl)
+
+//@ func (*ChannelWriter).mapDBAndCollectionName
+//@   props C09 C08
+//@   requires c != nil && wfNames(c)
+//@   ensures [mapped-by-applicable-entry] agreeNames(c, dbOrDefault(db), collection) ==> (forall k string :: umHas(c.nameMappings, k) && applies(k, dbOrDefault(db), collection) ==> result0 == fullDB(umGet(c.nameMappings, k)) && result1 == outColl(k, umGet(c.nameMappings, k), dbOrDefault(db), collection))
+//@   ensures [unchanged-when-no-entry-applies] (forall k string :: umHas(c.nameMappings, k) ==> !applies(k, dbOrDefault(db), collection)) ==> result0 == dbOrDefault(db) && result1 == collection
+//@   ensures [never-the-empty-database] dbOrDefault(db) != "" 
+//@   modifies nothing
+//@   panics never
+//@   rangeloop 1 invariant (forall k string :: visited(k) ==> !applies(k, dbOrDefault(db), collection)) && returnDB == dbOrDefault(db) && returnCollection == collection && local(db) == dbOrDefault(db) && local(collection) == collection && preservedCells(string)
